@@ -28,7 +28,7 @@ PROP = {
                   "arccos conditioning 1/max(sin theta, sqrt u) plus the fixed 6e-7 of the polynomial arccos for the angles, an interval oracle at the refract "
                   "discontinuity, and the valid / fallback / slack bands of the squared length for the normalize family (checked forms never return a non-finite "
                   "vector). The largest error/tolerance ratio of every comparison is recorded (headroom). Failures shrink to a minimal operand tuple saved as a replay "
-                  "file. Exploration, not proof.",
+                  "file. The same sub-checks also run against the SSE2 build with glam-assert compiled in: the generated inputs satisfy the documented preconditions, so a panic there is a failure. Exploration, not proof.",
     "level_note": "Trusted: rustc f64 arithmetic, f64 sqrt/atan2/log2 of std, the double-double routines of vcore, proptest, the harness. Vec3A is built through "
                   "Vec3A::from_vec4 with a hidden lane different from every visible lane. NEON/wasm32 backends cannot be built here.",
     "design_ref": "DESIGN.md section 5 C02",
